@@ -62,6 +62,8 @@ class Violation(Exception): pass        # the code under test did something it m
 class PathEnd(Exception): pass          # path ends normally (assume false, infeasible)
 class Inconclusive(Exception): pass     # budget or engine limit exceeded: never success
 class Crash(Exception): pass            # harness-requested simulated process death (verif_die)
+class ExitCalled(Exception):            # exit() inside verif_call_catching_exit: unwinds to the catching frame
+    def __init__(s, code): s.code = code
 
 # --------------------------------------------------------------------------- engine
 class Engine:
@@ -91,7 +93,7 @@ class Engine:
         s.vfs = {}; s.files = {}; s.events = 0; s.frozen = False; s.die_after = None; s.die_base = 0; s.vfs_mtime = {}; s.vfs_clock = 1
         s.model = None; s.decided = {}; s.nondets = []; s.obs = []; s.reached = []; s.notes = []; s.depth = 0
         s.violations = []; s.clock = 0; s.errno_addr = None; s.asserts_seen = {}
-        s.env = {}; s.tty = 0; s.vfs_dirs = set(); s.vfs_id = {}; s.expect_fatal = False
+        s.catch_exit = 0; s.env = {}; s.tty = 0; s.vfs_dirs = set(); s.vfs_id = {}; s.expect_fatal = False
         s.vfs['<stdout>'] = []; s.vfs['<stderr>'] = []
         a = 0x1000
         for name in s.m.funcs:
@@ -587,6 +589,9 @@ class Engine:
                 if s.expect_fatal: raise PathEnd('expected Fatal(): ' + txt)
                 raise Violation('Fatal(): ' + txt)
             return None
+        if name in ('@_ZN13StatusPrinter5ErrorEPKcz', '@_ZN13StatusPrinter7WarningEPKcz', '@_ZN13StatusPrinter4InfoEPKcz'):
+            # (this, fmt, ...) forwards its va_list to ::Error / ::Warning / ::Info: formatted here, like those
+            return s.call('@_Z5ErrorPKcz' if 'Error' in name else '@_Z7WarningPKcz' if 'Warning' in name else '@_Z4InfoPKcz', args[1:])
         f = s.m.funcs.get(name)
         if f is None and name in s.m.globals and s.m.globals[name].get('alias') is not None:
             tgt = s.m.globals[name]['alias']
@@ -968,6 +973,18 @@ class Engine:
         if n in ('__cxa_guard_acquire',): return int(s.load(args[0], 1) == 0)
         if n in ('__cxa_guard_release',): s.store(args[0], 1, 1); return None
         if n in ('__cxa_atexit', 'atexit'): return 0
+        if n == 'verif_call_catching_exit':
+            # run fn(arg); an exit(code) inside it flushes stdio (as exit does) and unwinds to here.  -> code, or -1 if fn returned
+            tgt = s.addrfn.get(s.concretize(args[0], 64))
+            if tgt is None: raise Violation('verif_call_catching_exit: not a function')
+            s.catch_exit += 1; d0 = s.depth
+            try: s.call(tgt, [args[1]]); return 0xFFFFFFFFFFFFFFFF
+            except ExitCalled as e: s.depth = d0; return e.code & 0xFFFFFFFF
+            finally: s.catch_exit -= 1
+        if n in ('exit', '_exit') and s.catch_exit:
+            if n == 'exit':
+                for f in list(s.files.values()): s.vfs_flush(f)
+            raise ExitCalled(sx(s.concretize(args[0], 32), 32))
         if n in ('abort', 'exit', '_exit', '__assert_fail', '__cxa_pure_virtual', '_ZSt9terminatev'):
             raise Violation(n + '() called')
         if n == 'strlen':
@@ -1049,6 +1066,15 @@ class Engine:
         if n.startswith('_ZSt') and 'throw' in n: raise Violation('C++ exception: ' + n)
         if n in ('__cxa_throw', '__cxa_allocate_exception', '_ZSt17__throw_bad_allocv'): raise Violation('C++ exception thrown (' + n + ')')
         if n in ('_ZNSt8ios_base4InitC1Ev', '_ZNSt8ios_base4InitD1Ev'): return None
+        if n == '_ZSt16__ostream_insertIcSt11char_traitsIcEERSt13basic_ostreamIT_T0_ES6_PKS3_l':     # std::cout << text (missing_deps.cc)
+            ptr = s.concretize(args[1], 64); ln = s.concretize(args[2], 64)
+            s.vfs_write(s.stdout_h, [s.load(ptr + i, 1) for i in range(ln)]); return args[0]
+        if n in ('_ZNSo9_M_insertImEERSoT_', '_ZNSo9_M_insertIlEERSoT_', '_ZNSolsEi', '_ZNSolsEm', '_ZNSolsEl', '_ZNSolsEj'):
+            v = s.concretize(args[1], 64); signed = n in ('_ZNSo9_M_insertIlEERSoT_', '_ZNSolsEi', '_ZNSolsEl')
+            if n in ('_ZNSolsEi', '_ZNSolsEj'): v &= 0xFFFFFFFF
+            if signed: v = sx(v, 32 if n == '_ZNSolsEi' else 64)
+            s.vfs_write(s.stdout_h, [ord(c) for c in str(v)]); return args[0]
+        if n in ('_ZNSo5flushEv', '_ZSt5flushIcSt11char_traitsIcEERSt13basic_ostreamIT_T0_ES6_'): return args[0]
         if n == '_ZNSt6chrono3_V212steady_clock3nowEv': s.clock += 1000000; return s.clock
         if n in ('time',): s.clock += 1000000; return s.clock // 1000000000 + 1700000000
         if n == 'getopt' or n == 'getopt_long': return 0xFFFFFFFF
@@ -1335,16 +1361,27 @@ class Engine:
             return 0
         if n == 'verif_file_size':
             path = s.cstring(args[0]); return len(V[path]) if path in V else 0xFFFFFFFFFFFFFFFF
+        if n == 'verif_file_hash':
+            path = s.cstring(args[0])
+            if path not in V: return 0xFFFFFFFFFFFFFFFF
+            h = 1469598103
+            for b in V[path]: h = (h * 1099511 + (s.concretize(b, 8) if is_sym(b) else b) + 1) % 2305843009213693951
+            return h
         if n == 'verif_vfs_freeze':
             s.frozen = bool(s.concretize(args[0], 32))
             if not s.frozen: s.die_after = None
             return None
         if n == 'verif_vfs_die_after':        # the process dies right after the n-th persistence event from now (n = 0: before the next one)
             s.die_after = args[0]; s.die_base = s.events; return None
-        if n == 'verif_stdout_capture': s.capture_base = len(V['<stdout>']); return None
+        if n == 'verif_stdout_capture': s.capture_base = len(V['<stdout>']); s.capture_base_err = len(V['<stderr>']); return None
         if n == 'verif_stdout_len': return len(V['<stdout>']) - getattr(s, 'capture_base', 0)
         if n == 'verif_stdout_copy':
             buf = s.concretize(args[0], 64); cap = s.concretize(args[1], 64); data = V['<stdout>'][getattr(s, 'capture_base', 0):]
+            k = min(len(data), cap)
+            for i in range(k): s.store(buf + i, 1, data[i])
+            return k
+        if n == 'verif_stderr_copy':
+            buf = s.concretize(args[0], 64); cap = s.concretize(args[1], 64); data = V['<stderr>'][getattr(s, 'capture_base_err', 0):]
             k = min(len(data), cap)
             for i in range(k): s.store(buf + i, 1, data[i])
             return k
